@@ -228,6 +228,18 @@ def run_get_note(case):
             if not isinstance(note, Note) or npitch(note) != op[s] + f:
                 S.problem(site, op[s] + f, [repr(note), npitch(note) if isinstance(note, Note) else None])
             S.outcome((s, f, npitch(note) if isinstance(note, Note) else None))
+            if isinstance(note, Note) and f in (0, 1, mf):
+                # the caller owns the note it was given: changing it must not change the tuning
+                note.octave_up()
+                note.augment()
+                try:
+                    again = tv.obj.get_Note(s, f) if maxfret is None else tv.obj.get_Note(s, f, maxfret)
+                    n += 1
+                    if not isinstance(again, Note) or npitch(again) != op[s] + f:
+                        S.problem(site + " asked again after the caller changed the note it had been given", op[s] + f,
+                                  [repr(again), npitch(again) if isinstance(again, Note) else None])
+                except Exception as e:                              # noqa
+                    S.problem(site + " asked again after the caller changed the note it had been given", op[s] + f, e)
     S.trans(n)
 
 
@@ -303,8 +315,8 @@ def _prefixes(name, lengths):
     return out
 
 
-STR_COUNTS = [None, 3, 4, 5, 6, 12]
-COURSE_COUNTS = [None, 1, 1.5, 1.6, 2, 3]
+STR_COUNTS = [None, 0, 3, 4, 5, 6, 12]          # 0 is a count like any other (no tuning has it)
+COURSE_COUNTS = [None, 0, 1, 1.5, 1.6, 2, 3]
 
 
 def gen_lookup(shard):
@@ -894,6 +906,61 @@ def run_tab_bar(case):
     S.outcome(("bar", tuple((e["column"], tuple(e["frets"])) for b in systems[0]["bars"] for e in b), systems[0]["length"]))
 
 
+# ---------------------------------------------------------------------------------------
+# clause: tab_attr -- entries whose Notes carry their own string/fret (as get_Note hands them out)
+# ---------------------------------------------------------------------------------------
+ATTR_FRETS = [0, 3, 7, 10, 12]
+
+
+def run_tab_attr(case):
+    """case = [tkey | None, [s1, f1], [s2, f2] | None, width]: the entry holds the Note objects returned by
+    get_Note (they carry .string / .fret); whatever the renderer makes of those hints, the tab must decode to
+    exactly the pitches of the entry -- also when both hints name the same string."""
+    S = engine.S
+    tkey, a, b, width = case
+    tv = view(tkey)
+    op = tv.opens()
+    notes, pitches = [], []
+    for pos in (a, b):
+        if pos is None:
+            continue
+        n = tv.obj.get_Note(pos[0], pos[1])
+        notes.append(n)
+        pitches.append(op[pos[0]] + pos[1])
+    if len(set(pitches)) != len(pitches):
+        S.count("tab_attr_same_pitch_skipped")
+        return
+    bar = Bar("C", (4, 4))
+    bar.place_notes(NoteContainer(notes), 4)
+    if [npitch(n) for n in bar[0][2].notes] != sorted(pitches):
+        raise engine.HarnessError("container does not hold the notes of get_Note")
+    z, _ = zone_cached(tv, sorted(pitches))
+    site = "from_Bar([get_Note%r%s], width=%r, tuning=%s)" % (tuple(a), (", get_Note%r" % (tuple(b),)) if b else "", width, tkey)
+    text = render(S, site, tablature.from_Bar, [bar], _kw(tv, "width", width), z == "none", z == "between", True)
+    if text is None:
+        return
+    systems = decode(S, site, text)
+    if systems is None or len(systems) != 1 or not check_systems(S, site, systems, tv):
+        return
+    got = RT.entries(systems[0])
+    if got != [sorted(pitches)]:
+        S.problem(site, [sorted(pitches)], got, detail=text.split("\n"), tags={"kind": "decode"})
+    S.count("tab_attr_decoded")
+    if b is not None and a[0] == b[0]:
+        S.count("tab_attr_both_hints_on_one_string")
+    S.outcome(("attr", tuple(systems[0]["bars"][0][0]["frets"]) if got and systems[0]["bars"][0] else None))
+
+
+def gen_tab_attr(tkey):
+    tv = view(tkey)
+    pos = [[s, f] for s in range(tv.n) for f in ATTR_FRETS]
+    for a in pos:
+        yield [tkey, a, None, 40]
+        for b in pos:
+            if a < b:
+                yield [tkey, a, b, 60]
+
+
 WIDTHS = [40, 60, 80, 100, 120, 150]
 
 
@@ -1144,6 +1211,7 @@ CLAUSES = {
     "chord_fingering": run_chord_fingering,
     "tab_note": run_tab_note,
     "tab_container": run_tab_container,
+    "tab_attr": run_tab_attr,
     "tab_bar": run_tab_bar,
     "tab_track": run_tab_track,
     "tab_composition": run_tab_composition,
@@ -1228,6 +1296,8 @@ def explore(ctx):
         ctx.product("tab_note", [(i, tier) for i in range(ntab)], gen_tab_note)
     if ctx.want("tab_container"):
         ctx.product("tab_container", [(i, tier) for i in range(ntab)], gen_tab_container)
+    if ctx.want("tab_attr"):
+        ctx.product("tab_attr", ctx.pick(DEEP_Q[:3], DEEP_Q + DEEP_T), gen_tab_attr)
     if ctx.want("tab_bar"):
         deep = [_tab_index(k) for k in ctx.pick(DEEP_Q, DEEP_Q + DEEP_T)]
         ctx.bound("tab_bar", {"deep_tunings": [TAB_KEYS[i] for i in deep], "deep": "4/4, <= 3 entries; meters 3/4 6/8 2/2 12/8, <= 2 entries",
